@@ -240,7 +240,6 @@ func init() {
 	}})
 }
 
-
 // ---------------------------------------------------------------------------
 // C20 (S) the service is stopped while a request is arriving: whatever part of Stop the request meets (listener
 // closing, upstream already stopped, session being closed), it is counted once and classified once.
